@@ -11,8 +11,21 @@ prog = model.Program(sys.argv[1] if len(sys.argv) > 1 else '/repo', relocate=Fal
 out = {}
 for q, fs in sorted(prog.by_qbase.items()):
     out[q] = {'n': len(fs), 'fp': dict(sorted(anchors.group_fp(fs).items()))}
+import ast
+globs = {}
+for mn, m in sorted(prog.modules.items()):
+    names = set()
+    for st in m.tree.body:
+        if isinstance(st, (ast.Assign, ast.AnnAssign)):
+            for t in (st.targets if isinstance(st, ast.Assign)
+                      else [st.target]):
+                for x in ast.walk(t):
+                    if isinstance(x, ast.Name):
+                        names.add(x.id)
+    globs[mn] = sorted(names)
 with open(anchors.TABLE, 'w') as fh:
     json.dump({'_comment': 'fingerprints of every function of the reference '
-               'tree, see psa/anchors.py', 'functions': out}, fh, indent=0,
+               'tree, see psa/anchors.py', 'functions': out,
+               'globals': globs}, fh, indent=0,
               sort_keys=True)
 print('%d functions' % len(out))
